@@ -209,6 +209,7 @@ pub fn evaluate(spec: &Spec, completed: bool) -> Vec<Violation> {
             "c10_cancel" => security::c10_cancel(&mut cx),
             "c11_hostile" => security::c11_hostile(&mut cx),
             "c13_commands" => router::c13_commands(&mut cx),
+            "c06_shards" => router::c06_shards(&mut cx),
             "c07_bans" => routing::c07_bans(&mut cx),
             "c07_expiry" => routing::c07_expiry(&mut cx),
             other => {
